@@ -47,7 +47,76 @@ func Mutate(r *rng.R, rec reflect.Value, ty *Type, st *State) {
 			g.stat("copyfrom-root")
 		}
 	}
+	// CopyFrom a source that differs from the record in ONE optional primitive field's presence
+	// (or one primitive value): change detection inside CopyFrom, nothing else changes.
+	if r.Chance(1, 10) && has(rec, "Clone") && has(rec, "CopyFrom") {
+		if extra := g.nearExtras(rec, ty); len(extra) > 0 {
+			if g.do(nil, &Call{M: "CopyFrom", Args: []any{&SrcRef{Kind: "near", Extra: extra}}, Tag: 'C', Ty: ty}) {
+				g.stat("copyfrom-near")
+			}
+		}
+	}
 	g.mutStruct(rec, ty, nil, 0, map[*Def]int{})
+}
+
+type optSite struct {
+	nav     []NavStep
+	name    string
+	ty      *Type
+	present bool
+	cur     reflect.Value
+}
+
+// optSites collects the optional primitive fields reachable through struct fields and the current
+// alternative of oneofs.
+func optSites(v reflect.Value, t *Type, nav []NavStep, depth int, out *[]optSite) {
+	if depth > 6 || isNilPtr(v) || t.Def == nil {
+		return
+	}
+	v = addr(v)
+	switch t.Kind {
+	case KStruct:
+		if t.Def.Dict != "" && depth > 0 {
+			return
+		}
+		for _, f := range t.Def.Fields {
+			n := Cap(f.Name)
+			switch {
+			case f.Type.Kind.Primitive() && f.Optional:
+				*out = append(*out, optSite{append([]NavStep(nil), nav...), n, f.Type, call(v, "Has"+n)[0].Bool(), call(v, n)[0]})
+			case f.Type.Kind == KStruct || f.Type.Kind == KOneof:
+				if f.Optional && !call(v, "Has"+n)[0].Bool() {
+					continue
+				}
+				optSites(call(v, n)[0], f.Type, with(nav, n, -1), depth+1, out)
+			}
+		}
+	case KOneof:
+		cur := int(call(v, "Type")[0].Uint())
+		if cur >= 1 && cur <= len(t.Def.Fields) {
+			f := t.Def.Fields[cur-1]
+			if f.Type.Kind == KStruct || f.Type.Kind == KOneof {
+				n := Cap(f.Name)
+				optSites(call(v, n)[0], f.Type, with(nav, n, -1), depth+1, out)
+			}
+		}
+	}
+}
+
+func (g *gen) nearExtras(rec reflect.Value, ty *Type) []*Call {
+	var sites []optSite
+	func() {
+		defer func() { _ = recover() }()
+		optSites(rec, ty, nil, 0, &sites)
+	}()
+	if len(sites) == 0 {
+		return nil
+	}
+	s := sites[g.r.Intn(len(sites))]
+	if s.present && g.r.Chance(2, 3) {
+		return []*Call{{Nav: s.nav, M: "Unset" + s.name}}
+	}
+	return []*Call{{Nav: s.nav, M: "Set" + s.name, Args: []any{g.genPrim(s.ty, s.cur)}}}
 }
 
 type gen struct {
